@@ -135,9 +135,9 @@ func (a Tuple) M__iadd__(other Object) (Object, error) {
 func (l Tuple) M__mul__(other Object) (Object, error) {
 	if b, ok := convertToInt(other); ok {
 		m := len(l)
-		n := int(b) * m
-		if n < 0 {
-			n = 0
+		n, err := repeatLength(m, b)
+		if err != nil {
+			return nil, err
 		}
 		newTuple := make(Tuple, n)
 		for i := 0; i < n; i += m {
